@@ -19,6 +19,7 @@ CLAUSE_PROPS = {
     "candidates": {"C08", "C04"},          # who may meet whom: compatibility filter / admissible partners
     "law": {"C08"},
     "zero-probability-option-taken": {"C08"},
+    "option-not-offered": {"C08", "C04"},      # a behaviour of the specification takes an option the code does not offer: the candidates differ
     "bonds": {"C04", "C05"},
     "atoms": {"C05"},
     "hydrogens": {"C05"},
